@@ -1378,10 +1378,26 @@ Section Sim9.
 Variable rt : rtable.
 Variable mt : mtable.
 
+Definition self_reg (r : register) (v : rval) : bool := match v with RReg r' => register_eqb r' r | _ => false end.
+(* a register set to itself: nothing is compiled, nothing changes *)
+Lemma sim_self_reg r im ss s ss' fuel : script_reg r = true -> sim ss s ->
+  Sem.exec rt mt fuel false ss (SReg r (RReg r)) = ROk SigNormal ss' -> simulates im ss s ss' (c_stmt rt mt false None (SReg r (RReg r))).
+Proof.
+  intros Hr Hsim He. destruct fuel as [|fuel]; [discriminate|]. rewrite exec_reg in He. destruct fuel as [|fuel]; [discriminate|].
+  rewrite eval_rval_S in He. cbn [sbind] in He. injection He as He. subst ss'.
+  assert (Hcode : c_stmt rt mt false None (SReg r (RReg r)) = []).
+  { change (c_stmt rt mt false None (SReg r (RReg r))) with (move_ref (PReg r) (DReg r)). unfold move_ref. rewrite register_eqb_refl. reflexivity. }
+  rewrite Hcode.
+  assert (Hsame : s_with_regs ss (rf_set (s_regs ss) r (rreg (s_regs ss) r)) = ss).
+  { pose proof (sim_full _ _ Hsim r (script_reg_visible r Hr)) as Hf. unfold rreg. destruct (rf_get (s_regs ss) r) as [v|] eqn:Eg; [|contradiction].
+    rewrite (rf_set_get _ _ _ Eg). apply s_with_regs_same. }
+  rewrite Hsame. exists 0%nat, s, []. split; [reflexivity|]. split; [exact Hsim|]. split; [unfold zlength; cbn; lia|]. split; [reflexivity|]. rewrite app_nil_r. reflexivity.
+Qed.
+
 (* the statement forms of the theorem *)
 Definition simple_atom (st : stmt) : bool :=
   match st with
-  | SReg r v => script_reg r && plain_rval mt v && ok_dest (DReg r) v
+  | SReg r v => script_reg r && ((plain_rval mt v && ok_dest (DReg r) v) || self_reg r v)     (* `kelvin kelvin`: no code *)
   | SAssign y v => plain_rval mt v && ok_dest (DVar y) v
   | SUnits _ | SWait => true
   | SGet n => plain_rval mt n
@@ -1406,8 +1422,10 @@ Theorem atom_simulation st : simple_atom st = true ->
 Proof.
   intros Hs im ss s ss' fuel Hsim Hc He.
   destruct st as [r v|m|ops|ops|ops| |n| |ps|y v| | | | | | | |[v|]|[v|]| |]; cbn [simple_atom] in Hs; try discriminate.
-  - apply andb_true_iff in Hs. destruct Hs as [Hs Hd]. apply andb_true_iff in Hs. destruct Hs as [Hr Hp].
-    exact (sim_SReg rt mt r v Hr Hp Hd im ss s ss' fuel Hsim Hc He).
+  - apply andb_true_iff in Hs. destruct Hs as [Hr Hs]. apply orb_true_iff in Hs. destruct Hs as [Hs|Hs].
+    + apply andb_true_iff in Hs. destruct Hs as [Hp Hd]. exact (sim_SReg rt mt r v Hr Hp Hd im ss s ss' fuel Hsim Hc He).
+    + destruct v as [l|l|m|m|y|r'|e|g args]; try discriminate. cbn [self_reg] in Hs. apply register_eqb_eq in Hs. subst r'.
+      exact (sim_self_reg r im ss s ss' fuel Hr Hsim He).
   - exact (sim_SUnits rt mt m im ss s ss' fuel Hsim Hc He).
   - exact (sim_SSet rt mt ops im ss s ss' fuel Hs Hsim Hc He).
   - exact (sim_power rt mt true ops im ss s ss' fuel Hs Hsim Hc He).
@@ -1572,8 +1590,10 @@ Qed.
 Lemma atom_no_routine st : simple_atom mt st = true -> forallb not_routine (c_stmt rt mt false None st) = true.
 Proof.
   intros Hs. destruct st as [r v|m|ops|ops|ops| |n| |ps|y v| | | | | | | |[v|]|[v|]| |]; cbn [simple_atom] in Hs; try discriminate.
-  - apply andb_true_iff in Hs. destruct Hs as [Hs Hd]. apply andb_true_iff in Hs. destruct Hs as [_ Hp].
-    change (c_stmt rt mt false None (SReg r v)) with (c_rval rt mt v (DReg r)). apply c_rval_no_routine; assumption.
+  - apply andb_true_iff in Hs. destruct Hs as [_ Hs]. apply orb_true_iff in Hs. destruct Hs as [Hs|Hs].
+    + apply andb_true_iff in Hs. destruct Hs as [Hp Hd]. change (c_stmt rt mt false None (SReg r v)) with (c_rval rt mt v (DReg r)). apply c_rval_no_routine; assumption.
+    + destruct v as [l|l|m|m|y|r'|e|g args]; try discriminate. cbn [self_reg] in Hs. apply register_eqb_eq in Hs. subst r'.
+      change (c_stmt rt mt false None (SReg r (RReg r))) with (move_ref (PReg r) (DReg r)). unfold move_ref. rewrite register_eqb_refl. reflexivity.
   - reflexivity.
   - pose proof (c_ops_no_routine true ops Hs) as Hn. cbn [cmd_op] in Hn. rewrite c_set, forallb_app, Hn. reflexivity.
   - pose proof (c_ops_no_routine false ops Hs) as Hn. cbn [cmd_op] in Hn. rewrite (c_power rt mt true ops), !forallb_app, Hn. reflexivity.
